@@ -1,7 +1,11 @@
 (* C19: over every history, an account's fee-token balance can only go down
-   (a) by exactly the stated fee of a successful forward that names it as the user and carries an
-       authorisation entry signed by it over the exact tuple (fee <= the authorised maximum), or
-   (b) for the permissioned forwarder's own balance, by a manager's sweep. *)
+   (a) in a successful forward that names it as the user and carries an authorisation entry signed by it
+       over the exact tuple - by exactly the stated fee (fee <= the authorised maximum) unless the
+       target of that very call is a fee token (then also by what the signed target call moves), or
+   (b) as the [from] of the token function that a forward with a fee token as target makes the
+       forwarder call - a call whose exact contract, function and arguments the user of that forward
+       signed, or
+   (c) for the permissioned forwarder's own balance, by a manager's sweep. *)
 From SC Require Import Lib.Prelude Lib.Int Lib.Host Model.FeeForwarder Proofs.FeeForwarder
   Run.C19 Proofs.FeeForwarderAllow Proofs.FeeForwarderFwd Proofs.C19Monitor Proofs.C19Final.
 
@@ -14,10 +18,16 @@ Lemma debit_only_by_authorised_forward c cs cl st' ret t h :
   (exists k fee max exp target fn args relayer au,
      cl = Forward k t fee max exp target fn args h relayer au /\
      0 < fee <= max /\
-     balance (get_tok st' t) h = balance (get_tok st t) h - fee /\
+     (memb target (c_tokens c) = false -> balance (get_tok st' t) h = balance (get_tok st t) h - fee) /\
      exists e, In e au /\ en_who e = h /\
        en_root e = {| f_contract := fwd_addr c k; f_name := F_FORWARD;
                       f_args := [VA t; VI max; VI exp; VA target; VS fn; VL args] |})
+  \/ (exists k tok fee max exp fn args user relayer au to amt sp,
+        cl = Forward k tok fee max exp t fn args user relayer au /\
+        tgt_moves c t fn args = Some (h, to, amt, sp) /\ 0 < amt /\
+        exists e, In e au /\ en_who e = user /\
+          en_root e = {| f_contract := fwd_addr c k; f_name := F_FORWARD;
+                         f_args := [VA tok; VI max; VI exp; VA t; VS fn; VL args] |})
   \/ (exists recipient operator au,
         cl = Sweep t recipient operator au /\ h = c_fp c /\ In operator (c_managers c)).
 Proof.
@@ -40,25 +50,39 @@ Proof.
     rewrite get_tok_with in Hlt. destruct (N.eqb t tok) eqn:E; cbv iota in Hlt; [|lia].
     apply N.eqb_eq in E. subst t.
     rewrite (balance_same_bal _ _ h (sa_bal _ _ _ _ _ _ _ _ P)) in Hlt. lia.
-  - (* Forward *) left.
+  - (* Forward *)
     destruct (forward_needs_auth _ _ _ _ _ _ _ _ _ _ _ _ _ _ _ H) as [[e [He1 [He2 He3]]] _].
     destruct (forward_fee_bounds _ _ _ _ _ _ _ _ _ _ _ _ _ _ _ H) as [Hf _].
-    destruct (forward_exact_debit_credit c cs _ _ _ _ _ _ _ _ _ _ _ _ _ Hm Hwf H) as [Hb _].
-    fold st in Hb. specialize (Hb t h). rewrite Hb in Hlt.
-    destruct (N.eqb t tok) eqn:E; cbv iota in Hlt; [|lia]. apply N.eqb_eq in E. subst tok.
-    destruct (N.eqb h user) eqn:Eu; cbv iota in Hlt.
-    2:{ match type of Hlt with context [if ?b then fee else 0] => destruct b; cbv iota in Hlt; lia end. }
-    apply N.eqb_eq in Eu. subst user.
-    match type of Hlt with context [if ?b then fee else 0] => destruct b eqn:Er; cbv iota in Hlt; [lia|] end.
-    exists k, fee, max, exp, target, fn, args, relayer, au. split; [reflexivity|]. split; [exact Hf|]. split.
-    + rewrite Hb. cbv iota. lia.
-    + exists e. auto.
+    destruct (forward_exact_debit_credit c cs _ _ _ _ _ _ _ _ _ _ _ _ _ Hm Hwf H) as [Hb [_ [_ [_ [_ [_ [Hnt Hamt]]]]]]].
+    fold st in Hb. specialize (Hb t h).
+    destruct (N.eqb t tok && N.eqb h user) eqn:Eu.
+    + left. apply andb_true_iff in Eu. destruct Eu as [E1 E2]. apply N.eqb_eq in E1. apply N.eqb_eq in E2. subst tok. subst h.
+      exists k, fee, max, exp, target, fn, args, relayer, au. split; [reflexivity|]. split; [exact Hf|]. split.
+      * intros Ht. rewrite (Hnt Ht) in Hb. cbn [tgt_delta] in Hb. rewrite !N.eqb_refl in Hb.
+        rewrite Hb in Hlt.
+        match type of Hlt with context [if ?b then fee else 0] => destruct b; cbv iota in *; lia end.
+      * exists e. auto.
+    + right. left.
+      assert (Hfee : exists X, balance (get_tok st' t) h = balance (get_tok st t) h + X + tgt_delta (tgt_moves c target fn args) target t h /\ 0 <= X).
+      { eexists. split; [exact Hb|]. destruct (N.eqb t tok) eqn:Et0; [|lia]. cbn [andb] in Eu. rewrite Eu.
+        match goal with |- context [if ?b then fee else 0] => destruct b end; cbv iota; lia. }
+      clear Hb. destruct Hfee as [X [Hb HX]].
+      destruct (tgt_moves c target fn args) as [[[[from to] amt] sp]|] eqn:Emv; cbn [tgt_delta] in Hb; [|lia].
+      pose proof (Hamt _ _ _ _ eq_refl) as Hge.
+      unfold transfer_delta in Hb. destruct (N.eqb t target) eqn:Et; cbv iota in Hb; [|lia].
+      apply N.eqb_eq in Et. subst target.
+      destruct (N.eqb h from) eqn:Eh; cbv iota in Hb.
+      2:{ destruct (N.eqb h to); cbv iota in Hb; lia. }
+      apply N.eqb_eq in Eh. subst from.
+      assert (0 < amt) by (destruct (N.eqb h to); cbv iota in Hb; lia).
+      exists k, tok, fee, max, exp, fn, args, user, relayer, au, to, amt, sp.
+      split; [reflexivity|]. split; [exact Emv|]. split; [assumption|]. exists e. auto.
   - (* SetTok *) exfalso. cbn [step_ok] in H.
     destruct (memb operator (c_managers c)); cbn [guard bind] in H; [|discriminate].
     destruct (require_auth false None operator _ _) as [ts1|]; cbn [bind] in H; [|discriminate].
     destruct (set_allowed _ _ _) as [a'|]; cbn [bind] in H; [|discriminate].
     inversion H; subst st'. unfold get_tok in Hlt. cbn [toks] in Hlt. lia.
-  - (* Sweep *) right. cbn [step_ok] in H.
+  - (* Sweep *) right. right. cbn [step_ok] in H.
     destruct (memb operator (c_managers c)) eqn:Em; cbn [guard bind] in H; [|discriminate].
     destruct (require_auth false None operator _ _) as [ts1|]; cbn [bind] in H; [|discriminate].
     destruct (memb tok (c_tokens c)); cbn [guard bind] in H; [|discriminate].
